@@ -25,8 +25,9 @@ LEVEL = 'exploration'
 ASSUMPTIONS = [
     'the step budget B(n) = 2e6 + 2e4*n LINE steps (>= 50x the worst shipped '
     'fragment) separates slow from hung; C extensions are not clocked',
-    'the hand-written generator mirrors the documented RING grammar; texts '
-    '<= 800 characters',
+    'the hand-written generator mirrors the documented RING grammar; '
+    'fault-mutated texts <= 800 characters, size strata (chains of up to 400 '
+    'atoms, numbers of up to 9000 digits) up to ~14 000 characters',
     'exception types allowed to escape: RINGSyntaxError (position inside the '
     'text), RINGReaderError, NotImplementedError',
 ]
@@ -159,9 +160,11 @@ def read_text(text, fast=False):
              'budget': full if escalated else full // 20,
              'confirmed_at_full_budget_here': escalated}))
     elif out['kind'] == 'internal':
+        sig = '%s@%s:%s' % (out['exc'], out['site'][0], out['site'][1])
+        if out['exc'] == 'RecursionError':
+            sig = 'RecursionError'     # where the stack ran out is arbitrary
         viols.append(core.violation(
-            PROP, 'internal-exception', out['exc'],
-            '%s@%s:%s' % (out['exc'], out['site'][0], out['site'][1]), out))
+            PROP, 'internal-exception', out['exc'], sig, out))
     elif out['kind'] == 'syntax':
         lines = text.split('\n')
         out['lineno'] = exc.lineno
@@ -234,6 +237,22 @@ def gen_item(run_seed):
         if rng.random() < 0.8:
             return {'id': 'm%d' % run_seed, 'text': base, 'base': bdesc,
                     'faults': [{'kind': 'semantic:' + sem}]}
+    elif r < 0.925:
+        # size strata: very long chains (deep nesting for a recursive
+        # descent) and very long numbers -- legal input all the same
+        if rng.random() < 0.5:
+            n = rng.choice([60, 150, 250, 400])
+            atoms = ['C labeled c1'] + ['C labeled c%d single bond to c%d'
+                                        % (i, i - 1) for i in range(2, n + 1)]
+            base = 'fragment long{ %s }' % '\n'.join(atoms)
+            bdesc = 'long-chain-%d' % n
+        else:
+            nd = rng.choice([50, 1000, 4400, 9000])
+            base = ('rule big{ reactant r1{ C? labeled c1 } modify number of '
+                    'radical (c1, %s) }' % ('7' * nd))
+            bdesc = 'huge-number-%d' % nd
+        return {'id': 'm%d' % run_seed, 'text': base, 'base': bdesc,
+                'faults': [{'kind': 'size:' + bdesc.rsplit('-', 1)[0]}]}
     else:
         base = ringgen.gen_noise(rng)
         bdesc = 'noise'
